@@ -165,6 +165,7 @@ fn api_swap<C: Config + Default>() {
 
 // @harness name=api_swap_default props=C04,C02,C01,C14,C12 tier=quick flavour=nostd timeout=1800 fn=ArcSwapAny::swap+HybridStrategy::wait_for_readers+Debt::pay_all
 #[cfg_attr(kani, kani::proof)]
+#[cfg_attr(kani, kani::stub(crate::debt::Debt::pay_all, crate::debt::verif_h::pay_all_stub))]
 #[cfg_attr(kani, kani::unwind(12))]
 pub(crate) fn api_swap_default() {
     api_swap::<DefaultConfig>();
@@ -172,6 +173,7 @@ pub(crate) fn api_swap_default() {
 }
 // @harness name=api_swap_nofast props=C14,C04 tier=thorough flavour=nostd timeout=1800 fn=ArcSwapAny::swap
 #[cfg_attr(kani, kani::proof)]
+#[cfg_attr(kani, kani::stub(crate::debt::Debt::pay_all, crate::debt::verif_h::pay_all_stub))]
 #[cfg_attr(kani, kani::unwind(12))]
 pub(crate) fn api_swap_nofast() {
     api_swap::<NoFast>();
@@ -181,6 +183,7 @@ pub(crate) fn api_swap_nofast() {
 // store = drop(swap): the replaced value loses exactly the storage's reference.
 // @harness name=api_store_default props=C04,C02,C14 tier=quick flavour=nostd timeout=1800 fn=ArcSwapAny::store
 #[cfg_attr(kani, kani::proof)]
+#[cfg_attr(kani, kani::stub(crate::debt::Debt::pay_all, crate::debt::verif_h::pay_all_stub))]
 #[cfg_attr(kani, kani::unwind(12))]
 pub(crate) fn api_store_default() {
     let stored = hy::any_obj();
@@ -210,6 +213,7 @@ pub(crate) fn api_store_default() {
 // handed out / released; guards become owners.
 // @harness name=api_into_inner_default props=C04,C02,C10,C01,C14 tier=quick flavour=nostd timeout=1800 fn=ArcSwapAny::into_inner
 #[cfg_attr(kani, kani::proof)]
+#[cfg_attr(kani, kani::stub(crate::debt::Debt::pay_all, crate::debt::verif_h::pay_all_stub))]
 #[cfg_attr(kani, kani::unwind(12))]
 pub(crate) fn api_into_inner_default() {
     let stored = hy::any_obj();
@@ -229,6 +233,7 @@ pub(crate) fn api_into_inner_default() {
 
 // @harness name=api_drop_default props=C04,C02,C10,C01,C14 tier=quick flavour=nostd timeout=1800 fn=ArcSwapAny::drop
 #[cfg_attr(kani, kani::proof)]
+#[cfg_attr(kani, kani::stub(crate::debt::Debt::pay_all, crate::debt::verif_h::pay_all_stub))]
 #[cfg_attr(kani, kani::unwind(12))]
 pub(crate) fn api_drop_default() {
     let stored = hy::any_obj();
@@ -260,6 +265,7 @@ pub(crate) fn api_drop_default() {
 // own field; load_full owns (+1); Guard::from_inner(x) owns x and into_inner gives it back.
 // @harness name=api_load_default props=C03,C10,C14,C02,C17 tier=quick flavour=nostd fn=ArcSwapAny::load+ArcSwapAny::load_full+Guard::into_inner+Guard::from_inner+Guard::deref
 #[cfg_attr(kani, kani::proof)]
+#[cfg_attr(kani, kani::stub(crate::debt::Debt::pay_all, crate::debt::verif_h::pay_all_stub))]
 #[cfg_attr(kani, kani::unwind(12))]
 pub(crate) fn api_load_default() {
     let stored = hy::any_obj();
@@ -385,6 +391,7 @@ fn cas_post<C: Config + Default>(s: &AS<C>, r: Guard<TP, HybridStrategy<C>>, pre
 
 // @harness name=api_cas_ref_default props=C05,C04,C02,C14 tier=quick flavour=nostd timeout=1800 fn=ArcSwapAny::compare_and_swap+HybridStrategy::compare_and_swap+AsRaw::as_raw
 #[cfg_attr(kani, kani::proof)]
+#[cfg_attr(kani, kani::stub(crate::debt::Debt::pay_all, crate::debt::verif_h::pay_all_stub))]
 #[cfg_attr(kani, kani::unwind(12))]
 pub(crate) fn api_cas_ref_default() {
     api_cas::<DefaultConfig>(Form::RefT);
@@ -392,6 +399,7 @@ pub(crate) fn api_cas_ref_default() {
 }
 // @harness name=api_cas_constptr_default props=C05 tier=thorough flavour=nostd timeout=1800 fn=ArcSwapAny::compare_and_swap+AsRaw::as_raw
 #[cfg_attr(kani, kani::proof)]
+#[cfg_attr(kani, kani::stub(crate::debt::Debt::pay_all, crate::debt::verif_h::pay_all_stub))]
 #[cfg_attr(kani, kani::unwind(12))]
 pub(crate) fn api_cas_constptr_default() {
     api_cas::<DefaultConfig>(Form::ConstPtr);
@@ -399,6 +407,7 @@ pub(crate) fn api_cas_constptr_default() {
 }
 // @harness name=api_cas_mutptr_default props=C05 tier=thorough flavour=nostd timeout=1800 fn=ArcSwapAny::compare_and_swap+AsRaw::as_raw
 #[cfg_attr(kani, kani::proof)]
+#[cfg_attr(kani, kani::stub(crate::debt::Debt::pay_all, crate::debt::verif_h::pay_all_stub))]
 #[cfg_attr(kani, kani::unwind(12))]
 pub(crate) fn api_cas_mutptr_default() {
     api_cas::<DefaultConfig>(Form::MutPtr);
@@ -406,6 +415,7 @@ pub(crate) fn api_cas_mutptr_default() {
 }
 // @harness name=api_cas_ref_nofast props=C14,C05 tier=thorough flavour=nostd timeout=1800 fn=ArcSwapAny::compare_and_swap
 #[cfg_attr(kani, kani::proof)]
+#[cfg_attr(kani, kani::stub(crate::debt::Debt::pay_all, crate::debt::verif_h::pay_all_stub))]
 #[cfg_attr(kani, kani::unwind(12))]
 pub(crate) fn api_cas_ref_nofast() {
     api_cas::<NoFast>(Form::RefT);
@@ -449,6 +459,7 @@ fn api_cas_guard(by_value: bool) {
 
 // @harness name=api_cas_refguard_default props=C05 tier=quick flavour=nostd timeout=1800 fn=ArcSwapAny::compare_and_swap+AsRaw::as_raw
 #[cfg_attr(kani, kani::proof)]
+#[cfg_attr(kani, kani::stub(crate::debt::Debt::pay_all, crate::debt::verif_h::pay_all_stub))]
 #[cfg_attr(kani, kani::unwind(12))]
 pub(crate) fn api_cas_refguard_default() {
     api_cas_guard(false);
@@ -456,6 +467,7 @@ pub(crate) fn api_cas_refguard_default() {
 }
 // @harness name=api_cas_guard_default props=C05 tier=thorough flavour=nostd timeout=1800 fn=ArcSwapAny::compare_and_swap+AsRaw::as_raw
 #[cfg_attr(kani, kani::proof)]
+#[cfg_attr(kani, kani::stub(crate::debt::Debt::pay_all, crate::debt::verif_h::pay_all_stub))]
 #[cfg_attr(kani, kani::unwind(12))]
 pub(crate) fn api_cas_guard_default() {
     api_cas_guard(true);
@@ -480,6 +492,7 @@ fn rcu_closure(cur: &TP) -> TP {
 // whose expected value is v; the replaced value is returned as an owner.
 // @harness name=api_rcu_default props=C06,C04,C02,C14 tier=quick flavour=nostd timeout=1800 fn=ArcSwapAny::rcu+ArcSwapAny::compare_and_swap
 #[cfg_attr(kani, kani::proof)]
+#[cfg_attr(kani, kani::stub(crate::debt::Debt::pay_all, crate::debt::verif_h::pay_all_stub))]
 #[cfg_attr(kani, kani::unwind(12))]
 pub(crate) fn api_rcu_default() {
     let stored = hy::any_obj();
